@@ -206,7 +206,7 @@ func VerifC16_Bindings() {
 			before[d] = c16bObserve(ctx, &bank, &k, d)
 		}
 		var msg bindingstypes.Message
-		target := ""             // the denom the message names
+		target := ""               // the denom the message names
 		delta := sdkmath.ZeroInt() // signed supply change requested
 		mintTo := me
 		op := sym.Choice("op", 5)
